@@ -28,6 +28,7 @@ import z3
 import mir2
 import mirsmt
 import report
+import second
 from mirsmt import Unsupported
 
 LOC = z3.BitVecSort(8)
@@ -381,7 +382,7 @@ def decide_entry(mir, entry, timeout_ms=30000):
         s.add(st1.pc)
         s.add(got != spec)
         t0 = time.time()
-        r = s.check()
+        r = second.check(s, 'C15 path query')
         res["solver_s"] += time.time() - t0
         res["solver_checks"] += 1
         if r == z3.sat:
@@ -584,6 +585,9 @@ def run(tier, seed):
             inconclusive.append("native stage: %s" % str(e)[-600:])
     wall = time.time() - t0
     calls = sorted({c for r in runs for c in r.get("calls", [])})
+    so, so_problems = second.verdict()
+    for pr in so_problems:
+        inconclusive.append("second opinion: " + pr)
     report.write_evidence(prop, tier, seed, "model_checking", {
         "evaluations": sum(r["paths"] for r in runs) or 1, "distinct_nontrivial": max(2, len(runs)),
         "rule": "one symbolic execution per entry point; every MIR path is one evaluation; each path's result is compared with the precedence specification by z3 for all values of the symbolic inputs",
@@ -594,6 +598,7 @@ def run(tier, seed):
         "functions_encoded": sorted({f for r in runs for f in r.get("mir_fns", [])}),
         "mir_calls_summarised": calls,
         "bounds": "entry points init_i18n_context_with_options (cookie enabled or not), init_i18n_subcontext_with_options (initial locale / cookie name / parent context each present or absent), fetch_locale_csr, fetch_locale_ssr; inputs fully symbolic: cookie holds a locale or not + which, best match of the language list, parent locale, explicit initial locale (8-bit locale codes, compared for equality only). Only the FIRST value of every memo (the initial locale) is decided; later re-evaluations (signals changing), hydration (`lang` attribute of <html>, web_sys) and what leptos-use does to decode the cookie or read the header are outside.",
+        "second_opinion": so,
         "inconclusive": inconclusive,
     }, wall, [
         "leptos contract (summaries): Memo::new(f) evaluates f(None) for its first value; Memo/Signal get and get_untracked return the current value; Signal::derive(f) evaluates f; RwSignal::new/set/get are a cell; RenderEffect::new(f) runs f(None) once immediately; Effect::new_isomorphic and on_cleanup do not change the locale cell (the effect only writes the cookie back)",
